@@ -170,7 +170,7 @@ func (s *c14Scenario) serial(first int) (string, [2]int) {
 }
 
 func checkC14(c *Ctx) {
-	c.Rule = "controlled two-activity scheduler: one API request and one poll step (1-3 board messages) run in goroutines on the same real node service; every State/Storage call first asks for the baton. All schedules with at most 2 (quick) / 3 (thorough) pre-emptions are enumerated per (request kind, message kind) scenario, each replayed from a snapshot; the final logical state (operation pool, tombstones, round projections, signature stores, offset, messages posted; ids/times masked) must equal the final state of one of the two serial orders. Thorough adds a free-running soak of the same pairs on real LevelDB with the real Poll() under the Go race detector. A schedule after which every unfinished activity is parked on a mutex for good (wait states from the goroutine dump, no scheduling point reached on 12 consecutive samples) is a violation (deadlock). distinct = distinct executed interleavings (grant traces)"
+	c.Rule = "controlled two-activity scheduler: one API request and one poll step (1-3 board messages) run in goroutines on the same real node service; every State/Storage call first asks for the baton. All schedules with at most 2 (quick) / 3 (thorough) pre-emptions are enumerated per (request kind, message kind) scenario, each replayed from a snapshot; the final logical state (operation pool, tombstones, round projections, signature stores, offset, messages posted; ids/times masked) must equal the final state of one of the two serial orders. Thorough adds a free-running soak of the same pairs on real LevelDB with the real Poll() under the Go race detector. A schedule after which every unfinished activity is parked on a mutex for good (wait states from the goroutine dump, no scheduling point reached on 12 consecutive samples) is a violation (deadlock). One schedule per scenario injects a slow board send; a refused reset on real LevelDB followed by a poll step runs under the hang observation. distinct = distinct executed interleavings (grant traces)"
 	c.Assumptions = []string{"MemState (one lock per call, like LevelDBState.Get/Set) for the enumerated schedules; LevelDBState itself only in the race soak", "scheduling granularity = State/Storage interface calls"}
 	builders := []func(seed uint64) (*c14Scenario, error){scnSubmitVsProposal, scnApproveVsOtherRound, scnReinitFinishVsOtherRound, scnResetVsPoll, scnSaveOffsetVsPoll, scnSubmitVsSameRound, scnSubmitVsSignatures, scnReinitFinishVsSameRoundProposal, scnReinitFinishVsOtherReinit, scnSecondApproveVsOtherRound, scnListOperationsVsPoll}
 	maxPre := c.Pick(2, 3)
@@ -270,6 +270,7 @@ func checkC14(c *Ctx) {
 		c.Sample(map[string]interface{}{"scenario": s.Name, "api_points": pa, "poll_points": pb, "schedules_run": runs, "distinct_interleavings": len(seen), "not_serializable": bad})
 	})
 	c.Exhaustive = true
+	c14RefusedReset(c)
 	if c.Thorough() {
 		raceSoak(c)
 	}
@@ -698,4 +699,56 @@ func viaREST(v *world.Node) *world.HTTPOp {
 		panic("REST API cannot be built for " + v.Name)
 	}
 	return a
+}
+
+// c14RefusedReset: the reset request with a store that cannot be opened is refused - and must then have no
+// effect at all on what the poller does next. Played on the real LevelDB store (the request fails inside
+// LevelDBState.Reset), in both serial orders; the poll step runs under the hang observation (a request that
+// leaves a lock behind shows as a poller parked on a mutex for good).
+func c14RefusedReset(c *Ctx) {
+	for _, order := range []string{"reset-then-poll", "poll-then-reset-then-poll"} {
+		w, err := world.NewWorld(world.Options{N: 2, T: 2, Seed: c.Seed*251 + uint64(len(order)), UseLevelDB: true})
+		if err != nil {
+			c.Inconclusive("refused-reset world: %v", err)
+			return
+		}
+		func() {
+			defer w.Close()
+			v := w.Nodes[1]
+			round, err := w.StartDKG(0, 2, now())
+			if err != nil {
+				c.Inconclusive("refused-reset world: %v", err)
+				return
+			}
+			wit := map[string]interface{}{"scenario": "refused reset-state on LevelDB, then poll", "order": order}
+			if order != "reset-then-poll" {
+				if _, err := v.PollStep(0); err != nil {
+					c.Inconclusive("refused-reset world: poll: %v", err)
+					return
+				}
+				_, _ = w.StartDKG(0, 2, now().Add(time.Hour))
+			}
+			_, rerr := viaREST(v).Raw("POST", "/resetState", nil, mkReq(map[string]interface{}{"new_state_dbdsn": "/dev/null/x"}))
+			c.Eval(1)
+			c.Distinct("refused-reset|" + order)
+			if rerr == nil {
+				c.Note("reset onto /dev/null/x was accepted (not judged)")
+				return
+			}
+			var perr error
+			if hung, stk := runOrHang(func() { _, perr = v.PollStep(0) }); hung {
+				wit["stack"] = trunc(stk, 1500)
+				c.Violate("C14/deadlock:reset-state-refused||poll", "after a reset request that was refused (the new store cannot be opened) the poller never gets through again: parked on a mutex for good", wit)
+				return
+			}
+			if perr != nil {
+				c.Violate("C14/not-equivalent-to-a-serial-order:reset-state-refused||poll", fmt.Sprintf("the poll step after a refused reset fails: %v", perr), wit)
+				return
+			}
+			if len(w.PendingOps(v)) == 0 || int(v.Offset()) != w.Board.Len() {
+				c.Violate("C14/not-equivalent-to-a-serial-order:reset-state-refused||poll", fmt.Sprintf("after a refused reset and a poll: %d pending operation(s), offset %d of %d (round %s in %q)", len(w.PendingOps(v)), v.Offset(), w.Board.Len(), trunc(round, 6), NodeState(v, round)), wit)
+			}
+			c.Add("refused_resets_followed_by_a_poll", 1)
+		}()
+	}
 }
